@@ -92,3 +92,22 @@ func VH_C08_AnnouncedSizeIsWhatIsSent_sym() {
 	vAssert("download_ok", err == nil)
 	vAssert("announced_transfer_size_is_what_is_sent", len(w.b)-16 == announced)
 }
+
+// History over the transfer registry: A and B are registered, A is fetched (and removed), C is registered. B's
+// reference still names B's transfer and C's reference names C's - a reference is never handed out again while the
+// transfer it was given for is pending. (Random references are assumed not to repeat: vDistinctRandom.)
+func VH_C08_PendingTransferKeepsItsReference_sym() {
+	vDistinctRandom()
+	srv, _ := NewServer()
+	cc := &ClientConn{Server: srv, ClientFileTransferMgr: NewClientFileTransferMgr()}
+	a := cc.NewFileTransfer(FileDownload, "/r", []byte("a.txt"), nil, []byte{0, 0, 0, 1})
+	b := cc.NewFileTransfer(FileDownload, "/r", []byte("b.txt"), nil, []byte{0, 0, 0, 2})
+	bRef := b.RefNum
+	vAssert("two_pending_transfers_two_references", a.RefNum != b.RefNum)
+	srv.FileTransferMgr.Delete(a.RefNum)
+	c := cc.NewFileTransfer(FileDownload, "/r", []byte("c.txt"), nil, []byte{0, 0, 0, 3})
+	vAssert("new_reference_is_not_a_pending_one", c.RefNum != bRef)
+	gb, gc := srv.FileTransferMgr.Get(bRef), srv.FileTransferMgr.Get(c.RefNum)
+	vAssert("pending_transfer_still_found_under_its_reference", gb == b && string(gb.FileName) == "b.txt")
+	vAssert("new_transfer_found_under_its_reference", gc == c && string(gc.FileName) == "c.txt")
+}
